@@ -75,6 +75,7 @@ class Program:
         if not facts.get("_desugared"):
             _desugar_fn_values(facts)
             _normalise(facts)
+            _inline_new_ctor_fns(facts)
             facts["_desugared"] = True
         self.fns = [hir.Fn(r, facts) for r in facts["fns"]]
         self.by_def = {f.def_path: f for f in self.fns}
@@ -127,8 +128,8 @@ class Program:
         if self._callsites is None:
             cs = []
             for f in self.fns:
-                if f.body is None:
-                    continue
+                if f.body is None or f.rec.get("inlined_ctor"):
+                    continue  # (a constructor function read at its call sites: its own body is not a site)
                 for n in f.nodes():
                     c = n.get("callee")
                     if c and (hir.is_call(n) or n.get("k") in ("Binary", "Unary", "Index", "Path")):
@@ -258,12 +259,40 @@ def _desugar_fn_values(facts):
 
     def visit(n):
         if isinstance(n, dict):
-            # `cond.then_some(v)`  ==>  `cond.then(|| v)` (v is evaluated eagerly, which no rule depends on)
+            # `cond.then_some(v)`  ==>  `cond.then(|| v)` - only when evaluating v early cannot be observed
             if n.get("k") == "MethodCall" and n.get("method") == "then_some" and len(n.get("args", [])) == 1:
                 r1 = n["recv"]
                 while isinstance(r1, dict) and r1.get("k") in ("DropTemps", "Use"):
                     r1 = r1["x"]
-                if isinstance(r1, dict) and r1.get("ty") == "bool":
+                def _inert(e, depth=0):
+                    """evaluating e early cannot be told from evaluating it under the condition: no indexing,
+                    no call other than a constructor / clone (then_some evaluates its operand whatever the
+                    condition says - `(!v.is_empty()).then_some(&v[0])` panics on the empty list)"""
+                    if isinstance(e, list):
+                        return all(_inert(x, depth) for x in e)
+                    if not isinstance(e, dict) or "k" not in e:
+                        return all(_inert(x, depth) for x in e.values()) if isinstance(e, dict) else True
+                    k_ = e["k"]
+                    if k_ in ("Index", "Binary", "AssignOp", "Assign", "Closure", "If", "Match", "BlockExpr", "Loop"):
+                        return False
+                    if k_ == "Unary" and e.get("op") != "Not":
+                        return False
+                    if k_ == "Call":
+                        f_ = e.get("f")
+                        while isinstance(f_, dict) and f_.get("k") in ("DropTemps", "Use"):
+                            f_ = f_["x"]
+                        ctor = isinstance(f_, dict) and f_.get("k") == "Path" and (f_.get("res") or {}).get("ctor_path")
+                        boxnew = (e.get("callee") or {}).get("name") == "new" and "boxed::Box" in ((e.get("callee") or {}).get("path") or "")
+                        if not (ctor or boxnew):
+                            return False
+                        return all(_inert(a_, depth + 1) for a_ in e.get("args", []))
+                    if k_ == "MethodCall":
+                        if e.get("method") not in ("clone", "to_owned", "to_string", "as_ref", "as_str", "into", "as_deref") or e.get("args"):
+                            return False
+                        return _inert(e.get("recv"), depth + 1)
+                    return all(_inert(v2, depth + 1) for k2, v2 in e.items() if k2 not in ("res", "callee", "pat"))
+
+                if isinstance(r1, dict) and r1.get("ty") == "bool" and _inert(n["args"][0]):
                     v_ = n["args"][0]
                     n["method"] = "then"
                     n["args"] = [{"id": fresh(), "sp": n["sp"], "ty": "closure", "k": "Closure", "def": "synthetic", "params": [], "body": v_, "synthetic": True}]
@@ -646,6 +675,127 @@ def _normalise(facts):
     for c in facts.get("consts") or []:
         if "body" in c and not c.get("gen"):
             visit(c["body"])
+
+
+def _inline_new_ctor_fns(facts):
+    """A function that the reviewed tree does not have and that only builds a value from its parameters
+    (`fn new(a, b) -> S { S { a, b, ctx: Ctx::root() } }`, `fn new_ident(name, span) -> Ident { Ident {..} }`)
+    is read as that value at its call sites: the call is replaced by the function's tail expression with the
+    parameters replaced by the arguments.  When no other reference to the function is left it is hidden
+    from the rules like generated code."""
+    import copy
+
+    reviewed = {_generic_free(d) for d in _reviewed_table()}
+    if not reviewed:
+        return
+    counter = [70_000_000]
+
+    def fresh():
+        counter[0] += 1
+        return counter[0]
+
+    def peel(n):
+        while isinstance(n, dict) and n.get("k") in ("DropTemps", "Use") and "x" in n:
+            n = n["x"]
+        return n
+
+    def pure(e, params, depth=0):
+        e = peel(e)
+        if not isinstance(e, dict) or depth > 8:
+            return False
+        k = e.get("k")
+        if k == "Lit":
+            return True
+        if k == "Path":
+            r = e.get("res") or {}
+            if r.get("res") == "Local":
+                return r.get("local") in params
+            return r.get("res") == "Def"
+        if k == "Struct":
+            return "base" not in e and all(pure(f["e"], params, depth + 1) for f in e.get("fields", []))
+        if k in ("AddrOf", "Cast", "Field") or (k == "Unary" and e.get("op") == "Deref"):
+            return pure(e.get("x"), params, depth + 1)
+        if k == "Tup":
+            return all(pure(x, params, depth + 1) for x in e.get("elems", []))
+        if k == "Call":
+            c = e.get("callee") or {}
+            if _generic_free(c.get("path") or "") in cands:
+                return False
+            return all(pure(a, params, depth + 1) for a in e.get("args", []))
+        if k == "MethodCall":
+            if e.get("method") not in ("clone", "into", "to_owned", "to_string", "as_str", "as_ref"):
+                return False
+            return pure(e.get("recv"), params, depth + 1) and not e.get("args")
+        return False
+
+    cands = {}
+    for r in facts["fns"]:
+        if "body" not in r or r.get("gen") or r.get("in_test") or r.get("impl_of_trait"):
+            continue
+        if _generic_free(r["def"]) in reviewed or (r["def"] in reviewed):
+            continue
+        b = peel(r["body"])
+        if not (isinstance(b, dict) and b.get("k") == "BlockExpr" and not b["block"].get("stmts") and "tail" in b["block"]):
+            continue
+        params = {}
+        ok = True
+        for i, prm in enumerate(r.get("params", [])):
+            pat = prm.get("pat") or {}
+            if pat.get("k") != "Binding" or pat.get("sub"):
+                ok = False
+                break
+            params[pat["local"]] = i
+        tail = b["block"]["tail"]
+        t0 = peel(tail)
+        builds = isinstance(t0, dict) and (t0.get("k") == "Struct" or (t0.get("k") == "Call" and (peel(t0.get("f")) or {}).get("k") == "Path" and ((peel(t0.get("f")).get("res") or {}).get("ctor_path"))))
+        if ok and builds:
+            cands[_generic_free(r["def"])] = (r, params, tail)
+    cands = {d: v for d, v in cands.items() if pure(v[2], v[1])}
+    if not cands:
+        return
+    left = {d: 0 for d in cands}
+    for r in facts["fns"]:
+        if "body" not in r or r.get("gen"):
+            continue
+        for n in list(_walk_json(r["body"])):
+            if n.get("k") == "Call" and n.get("callee"):
+                d = _generic_free(n["callee"].get("path") or "")
+                if d in cands and cands[d][0] is not r:
+                    cr, params, tail = cands[d]
+                    if len(n.get("args", [])) != len(params):
+                        left[d] += 1
+                        continue
+                    uses = {}
+                    for x in _walk_json(tail):
+                        if x.get("k") == "Path" and (x.get("res") or {}).get("res") == "Local" and x["res"]["local"] in params:
+                            uses[x["res"]["local"]] = uses.get(x["res"]["local"], 0) + 1
+                    simple = lambda a: peel(a).get("k") in ("Path", "Lit", "Field", "AddrOf")
+                    if any(cnt > 1 and not simple(n["args"][params[l]]) for l, cnt in uses.items()):
+                        left[d] += 1
+                        continue
+                    new = copy.deepcopy(peel(tail))
+                    for x in list(_walk_json(new)):
+                        if "id" in x:
+                            x["id"] = fresh()
+                    for x in list(_walk_json(new)):
+                        if x.get("k") == "Path" and (x.get("res") or {}).get("res") == "Local" and x["res"]["local"] in params:
+                            arg = copy.deepcopy(peel(n["args"][params[x["res"]["local"]]]))
+                            keep = {kk: x[kk] for kk in ("id",) if kk in x}
+                            x.clear()
+                            x.update(arg)
+                            x.update(keep)
+                    keep = {kk: n[kk] for kk in ("id", "adj", "aty") if kk in n}
+                    n.clear()
+                    n.update(new)
+                    n.update(keep)
+                    n["inlined_ctor_fn"] = d
+        for n in _walk_json(r["body"]):
+            if n.get("k") == "Path" and (n.get("res") or {}).get("res") == "Def" and _generic_free((n["res"].get("path") or "")) in cands and cands[_generic_free(n["res"]["path"])][0] is not r:
+                left[_generic_free(n["res"]["path"])] += 1
+    for d, (cr, params, tail) in cands.items():
+        if left[d] == 0:
+            cr["gen"] = True
+            cr["inlined_ctor"] = True
 
 
 def _walk_json(n):
